@@ -275,6 +275,74 @@ func runStreamTimeout(id int, c *streamCase, dp *dict.Parser) streamLine {
 	return l
 }
 
+// runStreamSlow: a Server with ReadTimeout and a slow but healthy peer: nothing for 0.6 x timeout, then one
+// fragment carrying the first message and the beginning of the second, then after another 0.6 x timeout the
+// rest.  No single wait reaches the timeout, so every message is delivered (the deadline belongs to the
+// message being waited for, not to the previous one).  A run whose measured gaps came out too long (loaded
+// machine) is dropped, not judged.
+func runStreamSlow(id int, c *streamCase, dp *dict.Parser) (streamLine, bool) {
+	l := streamLine{Ev: "stream", ID: id, Path: "conn+slow", Exact: false, Lens: c.Lens, Total: c.Total, Chunks: c.Chunks, Results: []streamResult{}}
+	data := streamBytes(c.Lens)
+	if c.Total < len(data) {
+		data = data[:c.Total]
+	}
+	const rt = 400 * time.Millisecond
+	const gap = rt * 6 / 10
+	const limit = rt * 85 / 100
+	m2end := c.Lens[0] + c.Lens[1]
+	if m2end > len(data) {
+		m2end = len(data)
+	}
+	cut := c.Lens[0] + 1 + (id*7)%(m2end-c.Lens[0]-1) // inside the second message
+	l.StallAt = cut
+	mc := memnet.NewConn()
+	mux := diam.NewServeMux()
+	var mu sync.Mutex
+	mux.HandleFunc("ALL", func(dc diam.Conn, m *diam.Message) {
+		idx, pure := classify(m)
+		mu.Lock()
+		l.Results = append(l.Results, streamResult{Kind: "msg", Idx: idx, Pure: pure})
+		mu.Unlock()
+	})
+	stop := make(chan struct{})
+	defer close(stop)
+	go func() {
+		for {
+			select {
+			case <-mux.ErrorReports():
+			case <-stop:
+				return
+			}
+		}
+	}()
+	ln := memnet.NewListener()
+	defer ln.Close()
+	t0 := time.Now()
+	go (&diam.Server{Handler: mux, Dict: dp, ReadTimeout: rt}).Serve(ln)
+	ln.Push(mc)
+	time.Sleep(gap)
+	mc.Feed(data[:cut])
+	g1 := time.Since(t0)
+	mc.WaitReaderBlocked(100 * time.Millisecond)
+	t1 := time.Now()
+	time.Sleep(gap)
+	mc.Feed(data[cut:])
+	g2 := time.Since(t1)
+	mc.FeedErr(io.EOF)
+	if g1 > limit || g2 > limit {
+		mc.WaitClosed(2 * time.Second)
+		return l, false
+	}
+	if !mc.WaitClosed(10 * time.Second) {
+		l.Err = "connection not closed at the end of the stream"
+	}
+	time.Sleep(2 * time.Millisecond)
+	mu.Lock()
+	l.Results = append(l.Results, streamResult{Kind: "err", Pure: true})
+	mu.Unlock()
+	return l, true
+}
+
 func Stream(a Args) error {
 	out, err := NewOut(a.Out)
 	if err != nil {
@@ -381,9 +449,30 @@ func Stream(a Args) error {
 			lines[k] = runStreamTimeout(tmoID[k], &tmo[k], vp)
 		}(k)
 	}
+	// the slow-peer scenarios: the first 24 of those with at least two declared messages and a byte of the second
+	slow := make([]streamLine, len(tmo))
+	judged := make([]bool, len(tmo))
+	ns := 0
+	for k := range tmo {
+		c := &tmo[k]
+		if ns >= 24 || len(c.Lens) < 2 || c.Lens[0] < 20 || c.Lens[1] < 20 || c.Total < c.Lens[0]+2 {
+			continue
+		}
+		ns++
+		wg.Add(1)
+		go func(k int) {
+			defer wg.Done()
+			slow[k], judged[k] = runStreamSlow(tmoID[k], &tmo[k], vp)
+		}(k)
+	}
 	wg.Wait()
 	for k := range lines {
 		out.Emit(lines[k])
+	}
+	for k := range slow {
+		if judged[k] {
+			out.Emit(slow[k])
+		}
 	}
 	return nil
 }
